@@ -32,8 +32,20 @@ Theorem infinity_is_16 : INF = 16 /\ local_cost = 1.
 Proof. exact (conj eq_refl eq_refl). Qed.
 Print Assumptions infinity_is_16.
 
-(* "ties are broken the same way every time": RibEntry.refresh yields the two least (cost, next-hop hash)
-   pairs among the costs below infinity, for every iteration order of the Go map *)
+(* "ties are broken the same way every time": for ANY tie-break given by an injective rank of the next hops (smaller
+   rank wins), the loop of RibEntry.refresh yields the same result — the two least (cost, rank) pairs among the costs
+   below infinity — for every iteration order of the Go map *)
+Theorem refresh_order_independent_any_tie_break : forall (key : node -> Z),
+  (forall a b, key a = key b -> a = b) ->
+  forall cs cs' : list (node * N), NoDup (map fst cs) -> Permutation cs cs' ->
+  refresh_fold_k key cs = refresh_fold_k key cs' /\ two_least_k key cs (refresh_fold_k key cs).
+Proof.
+  exact (fun key inj cs cs' Hnd P => conj (refresh_fold_order_independent_k key inj cs cs' Hnd P) (refresh_fold_k_spec key inj cs Hnd)).
+Qed.
+Print Assumptions refresh_order_independent_any_tie_break.
+
+(* the tie-break the implementation uses, as measured on this run (GenConsts.tie_smaller_wins: the smaller or the larger
+   name hash wins), is one of them; the executable model and all theorems below follow it *)
 Theorem refresh_order_independent : forall cs cs' : list (node * N),
   NoDup (map fst cs) -> Permutation cs cs' ->
   refresh_fold cs = refresh_fold cs' /\ two_least cs (refresh_fold cs).
@@ -101,6 +113,12 @@ Theorem dv_self_stabilises_sync : forall S n evs,
   converged (run S evs) = true.
 Proof. exact (fun S n evs Hok Hs Hn Hr => self_stabilises_converged S n evs Hok Hs Hn (nrounds_arounds _ n evs Hr S)). Qed.
 Print Assumptions dv_self_stabilises_sync.
+
+(* what the spec oracle evaluates on the implementation's tables (convergedw: cost = hop distance, next hop ANY neighbour
+   one hop closer, nothing else present) is implied by the theorems' conclusion *)
+Theorem converged_implies_oracle_predicate : forall S, converged S = true -> convergedw S = true.
+Proof. exact converged_weak. Qed.
+Print Assumptions converged_implies_oracle_predicate.
 
 (* re-convergence after any link or router loss: the same from the state left by any history *)
 Theorem dv_reconverges : forall hist n evs,
@@ -217,10 +235,11 @@ Proof. exact fair_rounds_need_fetch_retry. Qed.
 Print Assumptions fair_round_needs_fetch_retried.
 
 (* ---- the sender side: restarts ---- *)
-(* the unit of the initial sequence number, as measured on a real NewRouter on this run: the clock in milliseconds *)
-Theorem seq_clock_is_milliseconds : seq_clock_div = 1.
-Proof. exact eq_refl. Qed.
-Print Assumptions seq_clock_is_milliseconds.
+(* the unit of the initial sequence number in nanoseconds of the clock, as measured on a real NewRouter on this run:
+   a millisecond or finer (milliseconds 1000000, microseconds 1000, ...) — what restart_seq_fresh_up_to_a_millisecond needs *)
+Theorem seq_unit_at_most_a_millisecond : 0 < seq_clock_div <= 1000000.
+Proof. exact (conj eq_refl (fun H => match H with eq_refl => I end)) || (split; [reflexivity | discriminate]). Qed.
+Print Assumptions seq_unit_at_most_a_millisecond.
 
 (* NewRouter takes the clock (divided by the unit); every reported table change adds one *)
 Theorem new_router_sequence : forall div P i, getr (base P) i = None ->
@@ -250,19 +269,26 @@ Theorem restart_unnoticed_if_not_fresh : forall P i j s ri,
 Proof. exact stale_restart_unnoticed. Qed.
 Print Assumptions restart_unnoticed_if_not_fresh.
 
-(* milliseconds satisfy the obligation whenever fewer table changes happened than milliseconds have passed ... *)
-Theorem restart_seq_fresh_with_milliseconds : forall t0 k t1, k < t1 - t0 -> restart_seq_fresh 1 t0 k t1.
-Proof. exact restart_seq_ms_fresh. Qed.
-Print Assumptions restart_seq_fresh_with_milliseconds.
+(* any unit satisfies the obligation whenever fewer table changes happened than whole units have passed; with the clock
+   in nanoseconds, every unit of at most a millisecond does whenever fewer changes happened than milliseconds passed ... *)
+Theorem restart_seq_fresh_with_any_unit : forall div t0 k t1, 0 < div -> t0 <= t1 -> k < (t1 - t0) / div ->
+  restart_seq_fresh div t0 k t1.
+Proof. exact restart_seq_fresh_any_unit. Qed.
+Print Assumptions restart_seq_fresh_with_any_unit.
+
+Theorem restart_seq_fresh_up_to_a_millisecond : forall div t0 k t1, 0 < div -> div <= 1000000 -> t0 <= t1 ->
+  k < (t1 - t0) / 1000000 -> restart_seq_fresh div t0 k t1.
+Proof. exact restart_seq_fresh_up_to_ms. Qed.
+Print Assumptions restart_seq_fresh_up_to_a_millisecond.
 
 (* ... seconds do not: 5 changes, restart 3 s later, well inside the 30 s dead interval *)
 Theorem restart_seq_seconds_refuted : exists t0 k t1,
-  k < t1 - t0 /\ t1 - t0 < 30000 /\ ~ restart_seq_fresh 1000 t0 k t1.
+  k < (t1 - t0) / 1000000 /\ t1 - t0 < 30000000000 /\ ~ restart_seq_fresh 1000000000 t0 k t1.
 Proof. exact ProtoFacts.restart_seq_seconds_refuted. Qed.
 Print Assumptions restart_seq_seconds_refuted.
 
 (* in the model: line 1 - 2 - 3, router 2 makes six table changes and restarts 3 s later with router 1 as its only
-   neighbour.  Milliseconds: router 1 fetches the new advertisement and drops its route to 3.  Seconds: the new number
+   neighbour (clock and unit in abstract ticks: unit 1 = fine, unit 1000 = coarse).  Fine: router 1 fetches the new advertisement and drops its route to 3.  Seconds: the new number
    (103) is below the remembered one (106), router 1 keeps the route to 3 through 2. *)
 Example c18_restart_example :
   ex_restart 1 = ([(1, (0, 1)); (2, (1, 2))], 100006, 103000) /\
